@@ -500,7 +500,55 @@ def cellwise_constant(o) -> bool:
     return rec(as_T(o))
 
 
+def nodes_of(e):
+    """every node below e (abstract tensors by their tags, container objects by their attributes), each once"""
+    from .lift import Obj
+
+    seen, out, stack = set(), [], [e]
+    while stack:
+        t = stack.pop()
+        if id(t) in seen:
+            continue
+        seen.add(id(t))
+        if isinstance(t, T):
+            out.append(t)
+            stack.extend(reversed(t.tags.get("ufl_operands", ())))
+        elif isinstance(t, Obj) and "ufl_operands" in t.attrs:
+            out.append(t)
+            stack.extend(reversed(t.attrs["ufl_operands"]))
+    return out
+
+
+def install_type_queries(ip):
+    """ufl.algorithms.analysis type queries (generators over traversals in the source) as structural walks over the
+    abstract nodes: has_type / has_exact_type / extract_type"""
+    from .lift import Obj
+
+    by_name = {}
+
+    def klass(name):
+        if not by_name:
+            for c in ip.prog.all_classes():
+                by_name.setdefault(c.name, c)
+        return by_name.get(name)
+
+    def class_of(t):
+        name = t.tags.get("ufl_class") if isinstance(t, T) else (t.attrs.get("ufl_class") if isinstance(t, Obj) else None)
+        return klass(name) if name else None
+
+    def is_a(t, k):
+        ks = k if isinstance(k, (tuple, list)) else (k,)
+        c = class_of(t)
+        return c is not None and any(c is kk or (hasattr(kk, "name") and c.is_subclass_of(kk.name)) for kk in ks)
+
+    ov = ip.overrides
+    ov.setdefault("has_exact_type", lambda e, k: any(class_of(t) is k for t in nodes_of(e)))
+    ov.setdefault("has_type", lambda e, k: any(is_a(t, k) for t in nodes_of(e)))
+    ov.setdefault("extract_type", lambda e, k: {t for t in nodes_of(e) if is_a(t, k)})
+
+
 def install(ip: Interp, gdim=None, tdim=None):
+    install_type_queries(ip)
     cm, ov = base_models(gdim, tdim)
     ip.class_models.update(cm)
     ip.overrides.update(ov)
